@@ -263,6 +263,12 @@ def sweep(plan_names, kinds, decisions, record_intr=True, second=None, extra=Non
                     if second:
                         inj += [dict(x, at=p + x["at"]) for x in second]
                     scs.append(with_inject(base, inj, [dec] * 3, f"{kind}@{p}|{dec}" + (extra or "")))
+            # the window between RE(...) creating the run task and the task's first step (state still 'idle')
+            if not limit_points and not second:
+                inj = [{"at": "startup", "kind": kind, "arg": "f1", **(pre or {})}]
+                if kind == "suspend":
+                    inj.append({"at": 1, "kind": "release", "arg": "f1"})
+                scs.append(with_inject(base, inj, [decisions[0]] * 3, f"{kind}@startup|{decisions[0]}" + (extra or "")))
         out.append((pn, scs))
     return out
 
@@ -592,6 +598,9 @@ def suspender_scenarios(tier):
             out.append(mk(plan, f"pre-tripped,remove@{p}", {"sig1": 0, "sig2": 0}, [["sig_put", "sig1", 1], ["sus_install", "s1", 0]],
                           [{"at": p, "kind": "sus_remove", "arg": "s1"}, {"at": p + 2, "kind": "sus_remove", "arg": "s1"},
                            {"at": p + 3, "kind": "sig_put", "arg": "sig1", "value": 1}]))
+        # A0. trips in the window between RE(...) consulting the suspenders and the run task's first step
+        out.append(mk(plan, "trip@startup,put0@3", {"sig1": 0, "sig2": 0}, [["sus_install", "s1", 0]],
+                      [{"at": "startup", "kind": "sig_put", "arg": "sig1", "value": 1}, {"at": 3, "kind": "sig_put", "arg": "sig1", "value": 0}]))
         # A'. paused while held by the tripped suspender; the suspender is removed / released while paused; then resume
         for p in range(0, 2):      # (only points 0 and 1 exist before the engine blocks on the tripped suspender)
             for dec in ("sus_remove:s1", "sig_put:sig1:0"):
@@ -806,7 +815,7 @@ DataKeysDef == [d \\in XD |-> CASE d = "motor" -> {{"motor", "motor_setpoint"}} 
 StreamOrderDef == <<"interruptions", "mon1", "primary">>
 DevOrderDef == <<"det", "det2", "mon1", "motor", "pdet", "amotor", "apdet">>
 XSus == {{{", ".join('"%s"' % x for x in suspenders)}}}
-SigOfDef == [x \\in XSus |-> "sig" \\o x]
+SigOfDef == [x \\in XSus |-> IF x = "s1" THEN "sig1" ELSE IF x = "s2" THEN "sig2" ELSE "sig3"]
 SusFutsDef == [x \\in XSus |-> <<x \\o "a", x \\o "b", x \\o "c">>]
 SuspPreDef == <<{", ".join(tla_msg(m) for m in pre)}>>
 SuspPostDef == <<{", ".join(tla_msg(m) for m in post)}>>
@@ -850,12 +859,17 @@ MC_JOBS = {
     # (plan, kwargs) per tier; kept small in quick (the machine-checked bound is stated in the evidence)
     "quick": [("simple", dict(max_req=1)), ("fin", dict(max_req=1)), ("two", dict(max_req=1, req_kinds=["pause", "suspend", "abort"])),
               # devices whose stop()/pause()/resume() really await: the pause sequence, suspension start and clean-up are parks
-              ("aopen", dict(max_req=1, async_devs=["amotor", "apdet"]))],
+              ("aopen", dict(max_req=1, async_devs=["amotor", "apdet"])),
+              # a suspender object on a signal: install / remove / signal changes at every park (incl. before the first step)
+              ("simple", dict(max_req=0, suspenders=["s1"], max_sus_ops=3))],
     "thorough": [("simple", dict(max_req=2)), ("fin", dict(max_req=2)), ("two", dict(max_req=2, req_kinds=["pause", "suspend", "abort", "defer"])),
                  ("move", dict(max_req=1, max_faults=1, fault_kinds=["raise", "fail", "later"])),
                  ("mon", dict(max_req=1, max_updates=2)), ("multi", dict(max_req=1)), ("defer", dict(max_req=2, req_kinds=["defer", "pause", "abort"])),
                  ("norew", dict(max_req=2, req_kinds=["pause", "suspend"])), ("err", dict(max_req=1)), ("openonly", dict(max_req=2)),
-                 ("aopen", dict(max_req=2, async_devs=["amotor", "apdet"])), ("amove", dict(max_req=1, async_devs=["amotor", "apdet"]))],
+                 ("aopen", dict(max_req=2, async_devs=["amotor", "apdet"])), ("amove", dict(max_req=1, async_devs=["amotor", "apdet"])),
+                 ("simple", dict(max_req=0, suspenders=["s1"], max_sus_ops=3)),
+                 ("simple", dict(max_req=1, req_kinds=["pause", "abort"], suspenders=["s1"], max_sus_ops=3)),
+                 ("two", dict(max_req=0, suspenders=["s1", "s2"], max_sus_ops=3))],
 }
 
 
@@ -865,8 +879,8 @@ def get_mc(tier):
         from harness.core import Ctx
         ctx = Ctx("_mc", tier, 0)
         out = []
-        for plan, kw in MC_JOBS[tier]:
-            res, pv = mc_run(ctx, plan, tag=tier, **kw)
+        for idx, (plan, kw) in enumerate(MC_JOBS[tier]):
+            res, pv = mc_run(ctx, plan, tag=f"{tier}{idx}", **kw)
             sigs = {}
             for _tid, tags, reqs in pv:
                 for tag in tags:
